@@ -9,7 +9,7 @@ import vlib
 LEVEL = "proof"
 PROPS = "Writers/Props_C13.v"
 COQ_FILES = ["Writers/GoBytes.v", "Writers/GoBytesProofs.v", "Writers/PomProps.v", "Writers/PomPropsProofs.v",
-             "Writers/PkgJson.v", "Writers/PkgJsonProofs.v", "Writers/PomDecl.v", "Writers/PomDeclProofs.v",
+             "Writers/PkgJson.v", "Writers/PkgJsonProofs.v", "Writers/PomDecl.v", "Writers/PomDeclProofs.v", "Writers/PomDeclPropProofs.v",
              "Writers/PomWriter.v", "Writers/PomWriterProofs.v",
              "Writers/Proofs.v", "Writers/Props_C13.v"]
 COQ_FILES = [f for f in COQ_FILES if os.path.exists(os.path.join(vlib.COQ, "theories", f))]
@@ -31,16 +31,18 @@ MODES = {
         "corr": "npm readWriter.Write (Go, gjson/sjson, escaped path) vs Writers.PkgJson.write_pkgjson (Coq, vm_compute)",
         "theorems": ["pkgjson_write_exact", "pkgjson_only_values_change", "pkgjson_reread_exact",
                      "pkgjson_no_updates_identity", "pkgjson_success_implies_applied"],
-        "quick": 800, "thorough": 20000, "per": 50,
+        "quick": 800, "thorough": 14000, "per": 50,
     },
     "pom": {
         "type": "mcase", "model_ok": "mcase_model_ok", "spec_ok": "mcase_spec_ok", "spec_full": "mcase_spec_full",
         "domains": ["mcase_in_domain", "(fun c => d_lit (mc_chain c) (mc_updates c))",
+                    "(fun c => match mc_updates c with [u] => d_prop (mc_chain c) u | _ => false end)",
                     "(fun c => mc_chain_ok c && chain_frag (mc_chain c) (mc_updates c))", "mc_claimed"],
-        "domain_names": ["d_full_and_token_domain", "d_lit", "model_compared", "harness_structural_domain"],
+        "domain_names": ["d_full_and_token_domain", "d_lit", "d_prop", "model_compared", "harness_structural_domain"],
         "corr": "maven readWriter.Write (Go): written version declarations and property definitions of every pom of the chain vs "
                 "Writers.PomDecl.write_chain (Coq, vm_compute); Write panics vs Writers.PomWriter.write_panics",
-        "theorems": ["pom_decl_write_exact_on_D", "pom_decl_no_updates_identity", "pom_write_never_panics",
+        "theorems": ["pom_decl_write_exact_on_D", "pom_decl_property_update_exact_on_D", "pom_decl_no_updates_identity",
+                     "pom_write_never_panics",
                      "pom_origin_ignored_refuted", "pom_shared_property_refuted", "pom_property_in_parent_refuted"],
         "quick": 500, "thorough": 6000, "per": 25,
     },
@@ -70,9 +72,9 @@ META = {
                   "fixed findings run first as a regression corpus judged at full strength. pom.xml: the declaration level is modelled "
                   "(PomDecl.v: buildPatches origin selection and the effect on every version declaration/property of the pom chain), "
                   "tied on every case, with pom_decl_write_exact_on_D (literal versions, any number of updates, any origin incl. parents' "
-                  "profiles), pom_decl_no_updates_identity, pom_write_never_panics and three _refuted theorems for the known findings; "
+                  "profiles), pom_decl_property_update_exact_on_D (one update of a ${property} version), pom_decl_no_updates_identity, pom_write_never_panics and three _refuted theorems for the known findings; "
                   "PARTIAL: the token level (same XML token sequence, comments, CDATA, inserted block) is decided by the harness's "
-                  "encoding/xml oracle only, and ${property} versions are claimed by the oracle on d_full without a proof.",
+                  "encoding/xml oracle only, and several ${property} updates at once are claimed by the oracle on d_full without a proof.",
     "level_note": "Trusted: Coq kernel + vm_compute; Go harness harness/cmd/writers (generators, encoding/json and encoding/xml as "
                   "decoders for the oracle); gjson/sjson are modelled on the fragment documented in PkgJson.v (keys outside it are "
                   "excluded from the model comparison but not from the oracle); hooks guidedremediation/verif_export_c13.go and "
@@ -356,7 +358,9 @@ def run(ctx):
                     "the effect of the patches on every version declaration and property definition of every pom of the chain; the "
                     "written declarations/properties are compared with write_chain on every case, the independent effective-version "
                     "spec (decl_spec_ok) is evaluated on the implementation's own output; pom_decl_write_exact_on_D is proved on d_lit "
-                    "(literal versions), the oracle claims d_full (also ${property} versions, not proved). ORACLE-ONLY, not modelled: "
+                    "(literal versions, any number of updates), pom_decl_property_update_exact_on_D on d_prop (one update of a "
+                    "${property} version); the oracle claims d_full (several property updates at once / mixed: tied by vm_compute, not "
+                    "proved). ORACLE-ONLY, not modelled: "
                     "the token level -- that element order, attributes, namespaces, whitespace/text, comments (incl. inside <version>), "
                     "processing instructions and CDATA survive the forked encoder as the same token sequence, and the inserted "
                     "dependencyManagement block (encoding/xml token comparison of every written file, strict on the zero-update "
